@@ -1,4 +1,5 @@
 import PyecoreModel.Lemmas.StoreTyped
+import PyecoreModel.Lemmas.SetOps
 /-!
 # C03 — No feature ever holds a value of the wrong type
 
@@ -15,6 +16,20 @@ theorem C03_typed (mm : MM) (hwf : mm.WF) (hwft : mm.WFT) (s : St) (ht : Typed m
 
 theorem C03_reachable (mm : MM) (hwf : mm.WF) (hwft : mm.WFT) (ops : List Op) : Typed mm (run mm ops) :=
   typed_run mm hwf hwft ops
+
+/-- … with the other mutators of a set in the history; and `^=` / `symmetric_difference_update`, the one that brings
+values in, refuses them all before anything leaves -/
+theorem C03_reachable_setops (mm : MM) (hwf : mm.WF) (hwft : mm.WFT) (w : List (Op ⊕ SetOp)) : Typed mm (runAny mm w) := by
+  obtain ⟨ops, h⟩ := runAny_flat mm w
+  rw [h]; exact C03_reachable mm hwf hwft ops
+
+theorem C03_symUpd_reject (mm : MM) (s : St) (x f vs) (hf : hasFeat mm s x f = true)
+    (hbad : ∃ v ∈ vs, conforms mm s f v = false) :
+    setStep mm s (.symUpd x f vs) = (s, .error .badValue) := by
+  obtain ⟨v, hv, hc⟩ := hbad
+  have : vs.all (conforms mm s f) = false := by
+    rw [List.all_eq_false]; exact ⟨v, hv, by simp [hc]⟩
+  simp [setStep, SetOp.target, hf, this]
 
 /-- the operations that carry values to be type-checked, on an object that has the feature -/
 def carries (op : Op) (x : Oid) (f : Fid) : Prop := targetOf op = some (x, f)
